@@ -164,7 +164,7 @@ func TestC03_EachEnum(t *testing.T) {
 
 func TestC03_ForEnum(t *testing.T) {
 	c := harness.New(t, "C03", "for-enum",
-		"@for(i = a; i OP b; i++|i--) for all a, b in -3..3, OP in < <= > >= != with the step direction that terminates (including false at entry), body printing i with optional @breakIf / @continueIf on i and @break under @if, with and without @else. Non-trivial: >= 2 passes with a directive that fires, or @else taken. Distinct by construction.")
+		"@for(i = a; i OP b; POST) for all a, b in -3..3, OP in < <= > >= != with the step direction that terminates (including false at entry) and POST spelled i++/i--, as the assignment i = i +/- s or as the plain step i +/- s (s in 1, 2), body printing i with optional @breakIf / @continueIf on i and @break under @if, with and without @else. Non-trivial: >= 2 passes with a directive that fires, or @else taken. Distinct by construction.")
 	defer c.Finish()
 	in := interp()
 	idx := 0
@@ -195,6 +195,18 @@ func TestC03_ForEnum(t *testing.T) {
 						}
 						body = append(body, tw.Text(")"))
 						loop := &tw.Stmt{Kind: tw.SFor, Name: "i", Init: intLit(int64(a)), Cond: tw.Bin(op, tw.Var("i"), intLit(int64(b))), Post: tw.Un(post, tw.Var("i")), Body: body, HasElse: hasElse}
+						// the post clause in its other spellings: "i = i + s" (an assignment) and
+						// "i + s" (its value becomes the variable), stepping by 1 or 2
+						if op != "!=" && idx%3 != 0 {
+							bop := "+"
+							if post == tw.EDec {
+								bop = "-"
+							}
+							loop.Post = tw.Bin(bop, tw.Var("i"), intLit(int64(1+idx%2)))
+							if idx%3 == 1 {
+								loop.PostName = "i"
+							}
+						}
 						if hasElse {
 							loop.Else = []*tw.Stmt{tw.Text("NEVER")}
 						}
@@ -202,7 +214,13 @@ func TestC03_ForEnum(t *testing.T) {
 						out, facts := in.Render(prog, nil)
 						cs := renderCase{Src: tw.PrintStmts(prog, nil).Src, Want: wantFromOut(out)}
 						nt := (facts["passes"] >= 2 && (facts["break-fired"] > 0 || facts["continue-fired"] > 0)) || facts["for-else"] > 0
-						c.CaseEnum(nt, "op:"+op, "outcome:"+out.St.String())
+						postForm := "inc-dec"
+						if loop.PostName != "" {
+							postForm = "assignment"
+						} else if loop.Post.Kind == tw.EBin {
+							postForm = "plain-step"
+						}
+						c.CaseEnum(nt, "op:"+op, "outcome:"+out.St.String(), "post:"+postForm)
 						if nt && idx%97 == 0 {
 							c.Sample(cs.sample())
 						}
